@@ -283,10 +283,11 @@ def main():
         elif tier == "thorough":
             chosen = [(c, g) for c, g in items if c]
         else:
-            named = [("verifying",), ("decrypting",), ("id", "verifying"), ("signing", "encrypting")]
+            # the subsets the property names: verify-only, decrypt-only, no PASERK, single PASERK operations
+            named = [("verifying",), ("decrypting",), ("signing", "encrypting"), ("id", "verifying"), ("id", "decrypting"), ("pie-wrap",), ("pbkw",), ("pke",)]
             chosen = [(closure(g, table), g) for g in named]
-            pool = [(c, g) for c, g in items if c and (c, g) not in chosen]
-            chosen += rng.sample(pool, min(3, len(pool)))
+            pool = [(c, g) for c, g in items if c and c not in [x[0] for x in chosen]]
+            chosen += rng.sample(pool, min(2, len(pool)))
         fx_path = os.path.join(TARGET, "c19", f"fixtures-{crate}.json")
         os.makedirs(os.path.dirname(fx_path), exist_ok=True)
         fxr = run([PV, "c19-fixtures", str(n), str(seed())])
@@ -324,7 +325,7 @@ def main():
     write_evidence("C19", tier, "exploration", {
         "evaluations": evaluations,
         "distinct_nontrivial": len(nontrivial),
-        "rule": "(1) every subset of the feature flags of paseto-v1/v2/v3/v4 collapsed to its distinct closure under the [features] implication graph read from Cargo.toml, each checked with cargo check --no-default-features --features <generators> (plus paseto-core +-serde, paseto-json +-claims): exhaustive over closures; (2) generated probe crates depending on the reduced build (quick: verify-only, decrypt-only, id+verify, sign+encrypt and 3 seeded closures per crate; thorough: every non-empty closure) replay fixtures produced by the full build (tokens, PIE, PBKW, sealed key, ids for the run's seed) through every operation the closure offers and print what they produce; the full build and the reference model must accept it (deterministic signatures and ids byte-identical). Non-trivial iff the closure is neither empty nor full / a probe ran",
+        "rule": "(1) every subset of the feature flags of paseto-v1/v2/v3/v4 collapsed to its distinct closure under the [features] implication graph read from Cargo.toml, each checked with cargo check --no-default-features --features <generators> (plus paseto-core +-serde, paseto-json +-claims): exhaustive over closures; (2) generated probe crates depending on the reduced build (quick: verify-only, decrypt-only, sign+encrypt (no PASERK), id+verify, id+decrypt, pie-wrap only, pbkw only, pke only and 2 seeded closures per crate; thorough: every non-empty closure) replay fixtures produced by the full build (tokens, PIE, PBKW, sealed key, ids for the run's seed) through every operation the closure offers and print what they produce; the full build and the reference model must accept it (deterministic signatures and ids byte-identical). Non-trivial iff the closure is neither empty nor full / a probe ran",
         "samples": samples or [{"note": "no probe ran"}],
         "closures_per_crate": per_crate,
         "probes_run": probes,
